@@ -142,7 +142,8 @@ class CGraph:
 
         for nf,f in enumerate(self.dependentFunctionList):
             try:
-                f.xbar[...] = xbar_list[nf]
+                # accumulate: a dependent may be a view of another dependent
+                f.xbar[...] = f.xbar[...] + xbar_list[nf]
             except Exception as e:
                 err_str  = 'tried to initialize the bar value of  cg.dependentFunctionList[%d], but some error occured:\n'%nf
                 err_str += 'the assignment:  f.xbar[...] = xbar_list[%d]\n'%(nf)
